@@ -115,6 +115,32 @@ HISTORY = {
     'C18_L': 'missed at first; caught by the single-clock-reading rule',
     'C19_L': 'missed at first; caught by definite-assignment analysis (no branch for exactly 0 degrees)',
     'C20_L': 'ANALYSIS-ERROR at first; caught by the results-as-keys rule',
+    # round 6 (ids M/N/O)
+    'C02_M': 'missed at first (C02 looked at grid2geo only); caught once C02 ran the zone / central-meridian lattice of the forward direction',
+    'C02_O': 'missed at first; caught by the post-loop raise rule evaluated over the range of the iterate',
+    'C03_M': 'missed at first; caught after |affine| == value branches got a special-point analysis and quarter turns exp(i pi k/2) were folded',
+    'C04_M': 'first only C01/C02/C03; C04 now runs the ellipsoid constant rules (defining constants and derived quantities)',
+    'C04_O': 'first only C01/C02/C03; same mechanism as C04_M',
+    'C05_M': 'first only C01/C02/C03; C05 now runs the ellipsoid constant rules',
+    'C06_M': 'missed at first; caught after `x and Y` / `x or Y` value forms got a truth value and conjunctions of truthiness tests a special-point analysis',
+    'C06_N': 'missed at first; caught after np.pad kept the dtype of a literal integer array (in-place store truncates)',
+    'C07_N': 'first only C11; C07 now runs the IERS-convention rules of the parameter constructor',
+    'C10_O': 'first only C01/C02; C10 now runs the central-meridian rule of the forward direction',
+    'C11_M': 'not caught as a violation: the catalogue is generated at import time from dir() / globals(); the check refuses to answer (ANALYSIS-ERROR, exit 2: instance floor of the chain rule missed) - see DESIGN 11.12',
+    'C12_M': 'missed at first; caught by the constructor sign table (zero fields are not negative)',
+    'C12_N': 'missed at first; caught after isinstance() of an object against builtins / tuples was decided from the class bases',
+    'C12_O': 'missed at first; caught after the mixed-class operator rules looped over all five classes for the other operand',
+    'C13_M': 'first only C01/C02/C14; C13 now runs the zone / central-meridian lattice',
+    'C14_M': 'first only C02; C14 now runs the formula rules of the conversions it calls',
+    'C15_N': 'missed at first; caught after composite methods were compared semantically with the composition of the class\'s own methods, None-combination by None-combination',
+    'C15_O': 'missed at first; caught after the carry-order rule became path-aware (a test in the else-arm of the carrying if is not evaluated after the carry) and C15 ran the C08 carry rules',
+    'C16_M': 'missed at first; caught by the accuracy witness next to the vanishing set of the discriminant (circular covariance), evaluated in IEEE doubles against a 60-digit reference',
+    'C17_N': 'missed at first; caught by the who-may-write rule on the sub-grid container (insertion order is file order)',
+    'C18_M': 'UNDECIDED at first (strftime widths unknown); caught by the stamp-field source rule (ISO week-year is not the calendar year)',
+    'C18_N': 'missed at first; caught by enumerating the record widths the zero-line guard admits (must be 3, 4, 5)',
+    'C19_M': 'missed at first; caught by the sibling-defaults rule of the two refractivity routines',
+    'C19_N': 'missed at first; caught by the first_vel_params case table (a supplied reference index wins for every combination of the other optional arguments)',
+    'C19_O': 'missed at first; caught by the linearity-in-humidity rule (no case distinction on the humidity itself)',
     'C08_C': 'patch re-based after the HP repairs; first UNDECIDED, caught after str(float) was modelled as a non-fixed-point rendering',
 }
 
